@@ -333,6 +333,11 @@ func negotiateSession(ctx context.Context, location, origin jid.JID, rw io.ReadW
 		if err != nil {
 			return s, err
 		}
+		// A step that does not touch the connection does not notice that the context
+		// is done: never report a session as established after that.
+		if err = ctx.Err(); err != nil {
+			return s, err
+		}
 		if rw != nil {
 			for k := range s.features {
 				delete(s.features, k)
